@@ -18,110 +18,131 @@ func ruleTracking(w *World, r *Report, rule string, wantScopedStore, wantTransie
 	fi := ro.setInstance
 	r.Analysed(fi)
 	r.Analysed(ro.setSingleton)
-	info := fi.Pkg.TypesInfo
-	sws := lifetimeSwitches(w, fi)
-	if len(sws) != 1 {
-		r.Undecided(rule, fi.Name()+"#lifetime-switch", fi.Decl.Pos(), "expected exactly one switch on Lifetime, found %d", len(sws))
+	d := lifetimeDispatch(w, fi)
+	if !d.dispatches() {
+		r.Undecided(rule, fi.Name()+"#lifetime-dispatch", fi.Decl.Pos(), "%s does not dispatch on the lifetime", fi.Name())
 		return
 	}
-	sw := sws[0]
+	swPos := d.pos
 	ev := withStoreGens(trackingEvents(w, ro), w, ro)
 	cacheKey := "store:" + ownerField(w, ro.cache)
 	regionMay := func(name string) (Facts, bool) {
-		stmts, ok := caseRegion(info, sw, name)
-		if !ok {
-			return nil, false
-		}
-		fl := synthFlow(w, fi, stmts)
-		sol := ev.Solve(fl, false)
-		all := Facts{}
-		for _, b := range fl.G.Blocks {
-			for k := range sol.Out[b] {
-				all[k] = true
-			}
-		}
-		return all, true
+		may, _ := d.mayFacts(w, ev, name)
+		return may, true
 	}
 	for _, lt := range []string{"Singleton", "Scoped", "Transient"} {
 		may, ok := regionMay(lt)
 		con := fi.Name() + "#" + lt
 		if !ok {
-			r.Fail(rule, con, sw.Pos(), "the lifetime switch of %s has no clause for %s", fi.Name(), lt)
+			r.Fail(rule, con, swPos, "the lifetime switch of %s has no clause for %s", fi.Name(), lt)
 			continue
 		}
 		switch lt {
 		case "Singleton":
 			good := may.Has("call:setSingleton") && may.Has("store:singletons") && may.Has("append:provider.disposables") &&
 				!may.Has("append:scope.disposables") && !may.Has(cacheKey)
-			r.Check(good, rule, con, sw.Pos(), true,
+			r.Check(good, rule, con, swPos, true,
 				"singleton instances go to the provider: stored in the singleton table and, if disposable, appended to the provider's list; nothing is written to the scope",
 				fmt.Sprintf("singleton clause: stores into singleton table=%v, provider disposal list=%v, scope disposal list=%v, scope cache=%v - singletons must be owned by the provider only (a scope's Close must never touch them)",
 					may.Has("store:singletons"), may.Has("append:provider.disposables"), may.Has("append:scope.disposables"), may.Has(cacheKey)))
 		case "Scoped":
-			r.Check(may.Has("append:scope.disposables") && !may.Has("store:singletons"), rule, con, sw.Pos(), true,
+			r.Check(may.Has("append:scope.disposables") && !may.Has("store:singletons"), rule, con, swPos, true,
 				"scoped instances that are disposable are appended to the scope's disposal list (through fallthrough into the tracking code)",
 				"the Scoped clause never reaches the code that appends a disposable instance to the scope's list: scoped instances are not closed with their scope")
 			if wantScopedStore != "" {
-				r.Check(may.Has(cacheKey), wantScopedStore, con+":cache", sw.Pos(), true,
+				r.Check(may.Has(cacheKey), wantScopedStore, con+":cache", swPos, true,
 					"the Scoped clause stores the instance in the scope's cache",
 					"the Scoped clause does not store the instance in the scope's cache: every resolution constructs again")
 			}
 		case "Transient":
-			r.Check(may.Has("append:scope.disposables"), rule, con, sw.Pos(), true,
+			r.Check(may.Has("append:scope.disposables"), rule, con, swPos, true,
 				"transient instances that are disposable are appended to the scope's disposal list",
 				"the Transient clause does not append a disposable instance to the scope's list: transient disposables leak")
 			if wantTransientNoCache != "" {
-				r.Check(!may.Has(cacheKey) && !may.Has("store:singletons"), wantTransientNoCache, con+":no-cache", sw.Pos(), true,
+				r.Check(!may.Has(cacheKey) && !may.Has("store:singletons"), wantTransientNoCache, con+":no-cache", swPos, true,
 					"the Transient clause writes neither the scope cache nor the singleton table",
 					"the Transient clause stores the instance in a cache: a transient instance would be handed out twice")
 			}
 		}
 	}
-	// must-level: on the path where the instance is a Disposable, it is appended or closed on the spot
-	for _, f := range []*FuncInfo{fi, ro.setSingleton} {
-		finfo := f.Pkg.TypesInfo
-		fl := w.FlowOf(f)
+	// must-level: on the path where the instance is a Disposable, it is appended or closed on the spot.
+	// The code that asks the instance may be the owner or a private helper of it (trackDisposable).
+	hasAssert := func(g *FuncInfo) map[types.Object]bool {
+		ginfo := g.Pkg.TypesInfo
 		okVars := map[types.Object]bool{}
-		ast.Inspect(f.Decl.Body, func(n ast.Node) bool {
+		ast.Inspect(g.Decl.Body, func(n ast.Node) bool {
 			if as, ok := n.(*ast.AssignStmt); ok && len(as.Lhs) == 2 && len(as.Rhs) == 1 {
 				if ta, ok := unparen(as.Rhs[0]).(*ast.TypeAssertExpr); ok && ta.Type != nil {
-					if tv, ok := finfo.Types[ta.Type]; ok && isNamedType(tv.Type, modPath, "Disposable") {
-						okVars[objOf(finfo, as.Lhs[1])] = true
+					if tv, ok := ginfo.Types[ta.Type]; ok && isNamedType(tv.Type, modPath, "Disposable") {
+						okVars[objOf(ginfo, as.Lhs[1])] = true
 					}
 				}
 			}
 			return true
 		})
-		if len(okVars) == 0 {
-			r.Fail(rule, f.Name()+"#disposable-test", f.Decl.Pos(), "%s never tests whether the instance implements Disposable", f.Name())
-			continue
+		return okVars
+	}
+	stopOther := func(owner *FuncInfo) func(h *FuncInfo) bool {
+		return func(h *FuncInfo) bool {
+			return h != owner && (h == ro.setSingleton || h == ro.setInstance || ro.isCreate(h.Obj) || h.Obj.Name() == "Close")
 		}
-		sol := fl.Solve(Spec{Must: true,
-			Node: func(n ast.Node, in Facts) (gen, kill []string) {
-				if as, ok := n.(*ast.AssignStmt); ok {
-					for i, l := range as.Lhs {
-						if fv := fieldOf(finfo, l); fv != nil && i < len(as.Rhs) {
-							if c, ok := unparen(as.Rhs[i]).(*ast.CallExpr); ok && exprStr(c.Fun) == "append" {
-								if sl, ok := fv.Type().Underlying().(*types.Slice); ok && isNamedType(sl.Elem(), modPath, "Disposable") {
-									gen = append(gen, "tracked")
-								}
-							}
+	}
+	effects := func(finfo *types.Info, n ast.Node) (appended, closed bool) {
+		if as, ok := n.(*ast.AssignStmt); ok {
+			for i, l := range as.Lhs {
+				if fv := fieldOf(finfo, l); fv != nil && i < len(as.Rhs) {
+					if c, ok := unparen(as.Rhs[i]).(*ast.CallExpr); ok && exprStr(c.Fun) == "append" {
+						if sl, ok := fv.Type().Underlying().(*types.Slice); ok && isNamedType(sl.Elem(), modPath, "Disposable") {
+							appended = true
 						}
 					}
 				}
-				for _, c := range callsIn(n, false) {
-					if _, k, ok := isCloseCall(finfo, c); ok && k == "disposable" {
-						gen = append(gen, "closed-here")
-					}
+			}
+		}
+		for _, c := range callsIn(n, false) {
+			if _, k, ok := isCloseCall(finfo, c); ok && k == "disposable" {
+				closed = true
+			}
+		}
+		return
+	}
+	for _, owner := range []*FuncInfo{fi, ro.setSingleton} {
+		var f *FuncInfo
+		var okVars map[types.Object]bool
+		for _, g := range w.Within(owner, 2) {
+			if stopOther(owner)(g) {
+				continue
+			}
+			if ov := hasAssert(g); len(ov) > 0 {
+				f, okVars = g, ov
+				break
+			}
+		}
+		if f == nil {
+			r.Fail(rule, owner.Name()+"#disposable-test", owner.Decl.Pos(), "%s never tests whether the instance implements Disposable", owner.Name())
+			continue
+		}
+		r.Analysed(f)
+		finfo := f.Pkg.TypesInfo // helpers are in the same package
+		fl := w.FlowOf(f)
+		isDispEdge := func(b *cfg.Block, i int, cond ast.Expr, in Facts) (gen, kill []string) {
+			if cond != nil && okVars[objOf(finfo, cond)] && i == 0 {
+				gen = append(gen, "is-disposable", "pending")
+			}
+			return
+		}
+		sol := fl.Solve(Spec{Must: true, Global: globalPrefixes("tracked", "closed-here"), Stop: stopOther(owner),
+			Node: func(n ast.Node, in Facts) (gen, kill []string) {
+				a, c := effects(finfo, n)
+				if a {
+					gen = append(gen, "tracked")
+				}
+				if c {
+					gen = append(gen, "closed-here")
 				}
 				return
 			},
-			Edge: func(b *cfg.Block, i int, cond ast.Expr, in Facts) (gen, kill []string) {
-				if cond != nil && okVars[objOf(finfo, cond)] && i == 0 {
-					gen = append(gen, "is-disposable")
-				}
-				return
-			}})
+			Edge: isDispEdge})
 		bad := ""
 		for _, ex := range fl.Exits() {
 			at := sol.AtExit(ex)
@@ -131,23 +152,10 @@ func ruleTracking(w *World, r *Report, rule string, wantScopedStore, wantTransie
 		}
 		// the same as a may-analysis of the negation, which survives the join after the test:
 		// "a Disposable is in hand and has not been appended or closed yet"
-		pend := fl.Solve(Spec{Must: false,
+		pend := fl.Solve(Spec{Must: false, Global: globalPrefixes("pending"), Stop: stopOther(owner),
 			Node: func(n ast.Node, in Facts) (gen, kill []string) {
-				if as, ok := n.(*ast.AssignStmt); ok {
-					for i, l := range as.Lhs {
-						if fv := fieldOf(finfo, l); fv != nil && i < len(as.Rhs) {
-							if c, ok := unparen(as.Rhs[i]).(*ast.CallExpr); ok && exprStr(c.Fun) == "append" {
-								if sl, ok := fv.Type().Underlying().(*types.Slice); ok && isNamedType(sl.Elem(), modPath, "Disposable") {
-									kill = append(kill, "pending")
-								}
-							}
-						}
-					}
-				}
-				for _, c := range callsIn(n, false) {
-					if _, k, ok := isCloseCall(finfo, c); ok && k == "disposable" {
-						kill = append(kill, "pending")
-					}
+				if a, c := effects(finfo, n); a || c {
+					kill = append(kill, "pending")
 				}
 				return
 			},
@@ -165,26 +173,30 @@ func ruleTracking(w *World, r *Report, rule string, wantScopedStore, wantTransie
 				bad = w.Pos(ex.Pos) + " (on a path that skips the append)"
 			}
 		}
+		r.Check(bad == "", rule, owner.Name()+"#disposable-path", f.Decl.Pos(), true,
+			"on every path on which the instance is a Disposable it is appended to the owner's list, or closed on the spot when the owner was found disposed",
+			"the exit at "+bad+" is reached with a Disposable instance that was neither tracked nor closed")
+
 		// the test must look at the instance itself and be reached on every path that owns the instance
-		testedSpec := Spec{Must: true, Node: func(n ast.Node, in Facts) (gen, kill []string) {
-			if as, ok := n.(*ast.AssignStmt); ok && len(as.Rhs) == 1 {
-				if ta, ok := unparen(as.Rhs[0]).(*ast.TypeAssertExpr); ok && ta.Type != nil {
-					if tv, ok := finfo.Types[ta.Type]; ok && isNamedType(tv.Type, modPath, "Disposable") {
-						gen = append(gen, "instance-tested")
+		oinfo := owner.Pkg.TypesInfo
+		testedSpec := Spec{Must: true, Global: globalPrefixes("instance-tested"), Stop: stopOther(owner),
+			Node: func(n ast.Node, in Facts) (gen, kill []string) {
+				if as, ok := n.(*ast.AssignStmt); ok && len(as.Rhs) == 1 {
+					if ta, ok := unparen(as.Rhs[0]).(*ast.TypeAssertExpr); ok && ta.Type != nil {
+						if tv, ok := oinfo.Types[ta.Type]; ok && isNamedType(tv.Type, modPath, "Disposable") {
+							gen = append(gen, "instance-tested")
+						}
 					}
 				}
-			}
-			return
-		}, Edge: condEdge(w, finfo, 1)}
+				return
+			}, Edge: condEdge(w, oinfo, 1)}
 		var flows []*Flow
-		if f == fi {
+		if owner == fi {
 			for _, lt := range []string{"Scoped", "Transient"} {
-				if stmts, ok := caseRegion(finfo, sw, lt); ok {
-					flows = append(flows, synthFlow(w, f, stmts))
-				}
+				flows = append(flows, d.flowFor(w, lt))
 			}
 		} else {
-			flows = append(flows, fl)
+			flows = append(flows, w.FlowOf(owner))
 		}
 		for _, rf := range flows {
 			tsol := rf.Solve(testedSpec)
@@ -192,8 +204,11 @@ func ruleTracking(w *World, r *Report, rule string, wantScopedStore, wantTransie
 				if ex.Panic {
 					continue
 				}
-				if ex.Ret != nil && (len(ex.Ret.Results) != 1 || !isNilIdent(finfo, ex.Ret.Results[0])) {
-					continue // error exits
+				if ex.Ret != nil && (len(ex.Ret.Results) != 1 || !isNilIdent(oinfo, ex.Ret.Results[0])) {
+					// an error exit - unless it hands back the tracking helper's own verdict
+					if !(len(ex.Ret.Results) == 1 && returnsHelperVerdict(w, oinfo, ex.Ret.Results[0], f)) {
+						continue
+					}
 				}
 				at := tsol.AtExit(ex)
 				if at.Has("instance-tested") {
@@ -205,16 +220,19 @@ func ruleTracking(w *World, r *Report, rule string, wantScopedStore, wantTransie
 						nilInstance = true // setSingleton ignores nil instances
 					}
 				}
-				if nilInstance && f == ro.setSingleton {
+				if nilInstance && owner == ro.setSingleton {
 					continue
 				}
-				r.Fail(rule, f.Name()+"#instance-tested", ex.Pos, "a success exit is reached without having asked the instance itself whether it is a Disposable: disposability decided from anything else (the registered type, a cached flag) misses instances whose concrete type has a Close method")
+				r.Fail(rule, owner.Name()+"#instance-tested", ex.Pos, "a success exit is reached without having asked the instance itself whether it is a Disposable: disposability decided from anything else (the registered type, a cached flag) misses instances whose concrete type has a Close method")
 			}
 		}
-		r.Check(bad == "", rule, f.Name()+"#disposable-path", f.Decl.Pos(), true,
-			"on every path on which the instance is a Disposable it is appended to the owner's list, or closed on the spot when the owner was found disposed",
-			"the exit at "+bad+" is reached with a Disposable instance that was neither tracked nor closed")
 	}
+}
+
+// returnsHelperVerdict: e is a call to the tracking helper f (`return s.trackDisposable(x)`).
+func returnsHelperVerdict(w *World, info *types.Info, e ast.Expr, f *FuncInfo) bool {
+	c, ok := unparen(e).(*ast.CallExpr)
+	return ok && callee(info, c) == f.Obj
 }
 
 // ruleListsAppendOnly: R11.2 - owner disposal lists are only appended to at the end, or reset.
